@@ -117,6 +117,14 @@ def main():
     def m_str_eq(e, m, a):
         return a[0][1] == a[1][1]
 
+    def m_strip_prefix(e, m, a):
+        s = deref(e, a[0])
+        if not (isinstance(s, tuple) and s[0] in ("str", "string")):
+            raise Unsupported("strip_prefix on %r" % (str(s)[:60],))
+        t = s[1].decode() if isinstance(s[1], bytes) else s[1]
+        p = a[1][1] if isinstance(a[1], tuple) and a[1][0] == "char" else (a[1][1].decode() if isinstance(a[1][1], bytes) else a[1][1])
+        return ("Some", ("str", t[len(p):].encode())) if t.startswith(p) else ("None",)
+
     def handle_of(h):
         """operands are real IdedExpr values of various shapes; their handle is the id field"""
         if isinstance(h, list) and len(h) == 2 and isinstance(h[0], tuple) and h[0][0] == "opid":
@@ -444,6 +452,8 @@ def main():
         (r"^<Vec<Expression> as Index<usize>>::index$", m_vec_index),
         (r"^<std::string::String as PartialEq<&str>>::eq$", m_string_eq_str),
         (r"^std::string::String::as_str$", m_as_str),
+        (r"^core::str::<impl str>::strip_prefix::<(?:char|&str)>$", m_strip_prefix),
+        (r"^std::option::Option::<&str>::unwrap_or$", lambda e, m, a: a[0][1] if a[0][0] == "Some" else a[1]),
         (r"^<std::string::String as Deref>::deref$", m_as_str),
         (r"^<str as PartialEq>::eq$", m_str_eq),
         (r"^Value::resolve$", m_resolve),
@@ -932,7 +942,7 @@ def main():
         stats["scenarios"] += 1
         desc = {"operator": "call %s/%d %s target, %s" % (name, nargs, "with" if has_target else "no", "declared" if declared else "undeclared"),
                 "opcode": "CALL", "operands": [target_kind] if has_target else [],
-                "call_replay": [nargs, int(has_target), int(declared), int(target_kind == "err"), {"f": 0, "_f": 1, "@f": 2}.get(name, 0)]}
+                "call_replay": [nargs, int(has_target), int(declared), int(target_kind == "err"), {"f": 0, "_f": 1, "@f": 2, ".f": 3}.get(name, 0)]}
 
         def entry(e):
             cur.clear()
@@ -1028,6 +1038,9 @@ def main():
                             # host functions may be named like the parser's internal operators
                             run_call_scenario(nargs, has_target, declared, tk, "_f")
                             run_call_scenario(nargs, has_target, declared, tk, "@f")
+                        if not has_target:
+                            # the root-qualified spelling `.f(..)`: the name with its dot is what is looked up and reported
+                            run_call_scenario(nargs, has_target, declared, tk, ".f")
         for opc in binary:
             for ks in itertools.product(kinds, kinds):
                 run_scenario(opc, list(ks))
